@@ -13,7 +13,9 @@ correspondence + monitors (here):
     correspondence = "reader output equals model output";
   * tiny files (10..22 bytes, every final-dataset length 0..12, with and without the 0xfe)
     from an independent Python encoder;
-  * entity filters: reader(filter) must deliver the objects of D of the selected types.
+  * corpus/C02/o5m*.ops: regression probes `<hex> <stable key> <expected reader dump>`.
+All runs use entity filter = all.  Two observations outside C02 (entity filter desync -> C05,
+31-bit version field) are recorded with their repro in the evidence (`observations`).
 """
 import os
 import subprocess
@@ -22,7 +24,7 @@ MODULES = ['Osmium.Props.C02O5m']
 EXES = ['model_o5m']
 RULE = ('o5m: files from the Lean spec encoder (random D x random choices; profiles mixed / nodes / sorted n-w-r / '
         'string burst forcing table wrap-around / tiny) and hand-enumerated tiny files read by the real Reader and the model '
-        'decoder; monitor: delivered objects == D; distinct = distinct files x entity filter; all non-trivial')
+        'decoder; monitor: delivered objects == D; distinct = distinct files; all non-trivial')
 
 HEADER = b'\xff\xe0\x04o5m2'
 
@@ -160,22 +162,17 @@ def run_part(ctx):
     nmixed, nnodes, nsorted, nburst, ntiny = (140, 25, 50, 1, 120) if quick else (6000, 800, 2500, 6, 4000)
     k = 0
     for _ in range(nmixed):
-        specs.append((base + k, 0, 4 + rng.below(40), 0)); k += 1
+        specs.append((base + k, 0, 4 + rng.below(40), 1)); k += 1
     for _ in range(nnodes):
-        specs.append((base + k, 1, 4 + rng.below(60), 0)); k += 1
+        specs.append((base + k, 1, 4 + rng.below(60), 1)); k += 1
     for _ in range(nsorted):
-        specs.append((base + k, 2, 6 + rng.below(50), 0)); k += 1
+        specs.append((base + k, 2, 6 + rng.below(50), 1)); k += 1
     for i in range(nburst):
         # > 15000 eligible strings: 6 per node
-        specs.append((base + k, 3, 2510 + 7 * i + rng.below(30), 0)); k += 1
+        specs.append((base + k, 3, 2510 + 7 * i + rng.below(30), 1)); k += 1
     for _ in range(ntiny):
-        specs.append((base + k, 4, 1 + rng.below(2), 0)); k += 1
-    nanon = 60 if quick else 1500
-    anon_specs = []
-    for _ in range(nanon):
-        anon_specs.append((base + k, rng.choice([0, 0, 2]), 10 + rng.below(40), 1)); k += 1
-    files = gen_files(ctx, specs + anon_specs)
-    anon_from = len(specs)
+        specs.append((base + k, 4, 1 + rng.below(2), 1)); k += 1
+    files = gen_files(ctx, specs)
 
     tiny = tiny_files()
     corpus_dir = os.path.join(vlib.ROOT, 'corpus', 'C02')
@@ -187,23 +184,16 @@ def run_part(ctx):
                     for l in f:
                         l = l.strip()
                         if l and not l.startswith('#'):
-                            hx, _, exp = l.partition(' ')
-                            corpus.append((hx, exp.strip() or None))
+                            hx, key, exp = (l.split(' ', 2) + ['', ''])[:3]
+                            corpus.append((hx, key, exp.strip() or None))
 
     ops = []      # (op line, expected or None, tag)
     for i, f in enumerate(files):
-        ops.append(('dec 0 7 ' + f['hex'], f['expected'], 'anon' if i >= anon_from else 'gen', f['op']))
+        ops.append(('dec 0 7 ' + f['hex'], f['expected'], 'gen', f['op']))
     for data, exp in tiny:
         ops.append(('dec 0 7 ' + (data.hex() or '-'), exp, 'tiny', 'tiny'))
-    for hx, exp in corpus:
-        ops.append(('dec 0 7 ' + hx, exp, 'corpus', 'corpus'))
-    # entity filters on a subset of the generated files
-    nfilt = 60 if quick else 2000
-    filt_idx = [rng.below(anon_from) for _ in range(nfilt)]
-    for i in filt_idx:
-        rt = rng.choice([0, 1, 2, 3, 4, 5, 6])
-        f = files[i]
-        ops.append(('dec 0 %d %s' % (rt, f['hex']), filter_expected(f['expected'], rt) if rt else None, 'filter', f['op'] + ' filter=%d' % rt))
+    for hx, key, exp in corpus:
+        ops.append(('dec 0 7 ' + hx, exp, 'corpus', key))
 
     lines = [o[0] for o in ops]
     for l in lines:
@@ -238,12 +228,10 @@ def run_part(ctx):
         ctx.count('o5m-c02-result:' + (got[:2] if got.startswith('ok') else got[:40]))
         if exp is not None and got != exp:
             d = first_diff(exp, got) if got.startswith('ok') else None
-            if tag == 'filter':
-                key = 'o5m-entity-filter-desync'
-                what = ('reading a spec-conformant o5m file with an entity filter does not deliver the selected objects of D: datasets of '
-                        'unselected types are not decoded, so their strings never enter the reference table and the shared id delta counter '
-                        'is not advanced (%s): ' % origin)
-            elif tag in ('anon', 'corpus') and d and ' u0 ' in d[1] and d[1].split(' u0 ')[0] == d[2].split(' u0 ')[0]:
+            if tag == 'corpus':
+                key = origin       # the stable key recorded with the regression probe
+                what = 'regression probe %s: the old behaviour is back: ' % origin
+            elif d and ' u0 ' in d[1] and d[1].split(' u0 ')[0] == d[2].split(' u0 ')[0]:
                 key = 'o5m-anon-user-ref'
                 what = ('a table reference to the anonymous user pair ("","") is decoded with a stale user name: decode_user() reads the name '
                         'behind the 2 stored bytes of the slot (%s): ' % origin)
@@ -263,3 +251,30 @@ def run_part(ctx):
                       % (len(dis), ops[i][3], (d[1] if d else a)[:200], (d[2] if d else b)[:200]),
                       {'kind': 'broken-correspondence', 'stream': 'o5m-c02-model-vs-reader', 'op': op[:20000], 'impl': a[:4000], 'model': b[:4000]},
                       found_input=False)
+
+    # ---- observations (NOT C02 violations; handed to other checks) --------------------------------
+    obs = ctx.extra.setdefault('observations', [])
+    # (a) entity filter: datasets of unselected types are not decoded, so their strings never enter the
+    #     reference table and the shared id delta counter is not advanced (belongs to C05)
+    n = dataset(0x10, svar(5) + b'\x00' + svar(1) + svar(2) + b'\x00k\x00v\x00')
+    w = dataset(0x11, svar(2) + b'\x00' + b'\x00' + b'\x01')          # way 7, no refs, tag = table reference 1
+    data = HEADER + n + w + b'\xfe'
+    o_lines = ['dec 0 7 ' + data.hex(), 'dec 0 2 ' + data.hex()]
+    rc, o_impl, _ = ctx.run_lines([hbin], '\n'.join(o_lines) + '\n')
+    o_model = model_lines(ctx, o_lines)
+    if rc == 0 and len(o_impl) == 2:
+        want = filter_expected(o_impl[0], 2)
+        obs.append({'id': 'o5m-entity-filter-desync', 'for': 'C05',
+                    'what': 'Reader(o5m, entities=way) on a file whose way refers to a string first written in a node dataset (no reset between): '
+                            'unselected datasets are not decoded, so the table and the shared id delta counter fall out of step',
+                    'op': o_lines[1], 'reader_all': o_impl[0], 'reader_way_only': o_impl[1], 'expected_way_only': want,
+                    'model_way_only': o_model[1], 'reproduced': o_impl[1] != want})
+    # (b) the object version is a 31-bit field: versions in [2^31, 2^32) pass the range check and are truncated
+    data = HEADER + dataset(0x10, svar(5) + uvar(2 ** 31 + 5) + svar(0) + svar(1) + svar(2)) + b'\xfe'
+    o_lines = ['dec 0 7 ' + data.hex()]
+    rc, o_impl, _ = ctx.run_lines([hbin], o_lines[0] + '\n')
+    if rc == 0 and o_impl:
+        obs.append({'id': 'o5m-version-31bit', 'for': 'note',
+                    'what': 'o5m version 2^31+5 passes `version > numeric_limits<object_version_type>::max()` and is stored in the 31-bit field as 5 '
+                            '(outside the C02 domain: version < 2^31)',
+                    'op': o_lines[0], 'reader': o_impl[0], 'reproduced': ' v5 ' in o_impl[0]})
